@@ -305,6 +305,11 @@ func ruleInferredOrderDedup(c *Ctx, rule string) {
 		if call, ok := st.Val.(*ssa.Call); ok && core.CalleeKey(&call.Call) == "builtin.append" && c.mentionsField(call.Call.Args[0], "Schema.PropertyOrder", 3) {
 			return // an ordinary append of a name
 		}
+		if call, ok := st.Val.(*ssa.Call); ok && len(call.Call.Args) > 0 && c.mentionsField(call.Call.Args[0], "Schema.PropertyOrder", 3) {
+			if k := core.CalleeKey(&call.Call); strings.HasPrefix(k, "slices.Delete") {
+				return // the removal of a name adds no duplicate
+			}
+		}
 		n++
 		var extra []string
 		for _, g := range guardsOf(st) {
